@@ -24,6 +24,10 @@ type C15Case struct {
 	// Contents (family "contents"): instead of a generated tree, the files work/a.go, work/b.go and work/sub/c.go
 	// with these content kinds; the patch carries an import guard that every kind satisfies.
 	Contents []string `json:"contents,omitempty"`
+	// Via (family "links"): the same tree reached through a symbolic link: "cwd" = the current directory is entered
+	// through a link to work ($PWD names the link); "ancestor" = every argument is given twice, once directly and
+	// once through a link to work (a symlinked ancestor; neither the argument nor the files are links themselves).
+	Via string `json:"via,omitempty"`
 }
 
 // c15ContentKinds: Go files that all import "strings" without a name, in every spelling and layout the language
@@ -219,6 +223,16 @@ func c15Candidates(t *tnode) []string {
 }
 
 func c15Gen(tier string, emit func(any)) {
+	// links: every tree x every single argument, with the tree reached through a symbolic link
+	c15Trees(tier, func(t *tnode) {
+		for _, a := range c15Candidates(t) {
+			if strings.HasPrefix(a, "$ABS") {
+				continue
+			}
+			emit(&C15Case{Tree: t, Args: []string{a}, Via: "cwd"})
+			emit(&C15Case{Tree: t, Args: []string{a}, Via: "ancestor"})
+		}
+	})
 	// contents: every assignment of content kinds to three requested files (quick: every pair of kinds on a.go and
 	// sub/c.go with b.go plain; thorough: all triples)
 	for _, ka := range c15ContentOrder {
@@ -403,6 +417,7 @@ func c15Materialize(t *tnode, root string) map[string]string {
 		}
 	}
 	walk(t, "work")
+	files["wlink"] = "->work"
 	return files
 }
 
@@ -484,7 +499,18 @@ func c15Run(env *core.Env, ci any) core.Outcome {
 		for _, a := range c.Args {
 			args = append(args, strings.ReplaceAll(a, "$ABS", sb.path("work")))
 		}
-		r := sb.run(real, "work", args, "")
+		cwd := "work"
+		switch c.Via {
+		case "cwd":
+			cwd = "wlink"
+		case "ancestor":
+			for _, a := range c.Args {
+				if !strings.HasPrefix(a, "$ABS") {
+					args = append(args, "../wlink/"+a)
+				}
+			}
+		}
+		r := sb.run(real, cwd, args, "")
 		if r.Panic != "" {
 			return bad("panic", "gopatch crashed: %s", r.Panic)
 		}
@@ -521,7 +547,7 @@ func c15Run(env *core.Env, ci any) core.Outcome {
 			}
 		}
 		// the -v log mentions exactly the processed files, once each, in path order (wording is free)
-		rest := r.Stdout
+		rest := strings.ReplaceAll(r.Stdout, sb.path("wlink"), sb.path("work"))
 		for _, p := range expected {
 			var ok bool
 			if rest, ok = cutLogLine(rest, sb.path("work/"+p)); !ok {
